@@ -2238,7 +2238,7 @@ func Run(c *lib.Ctx) {
 	// 4. Send's own guard
 	fails = append(fails, stolen(c, c.Scale(40, 300))...)
 
-	// 5. re-wiring a writer whose readers are closed (the step excluded by C03.teardown_releases_readers_partial)
+	// 5. re-wiring a writer whose readers are closed (C03.relink_can_increase, C03.relink_released; covered by C03.teardown_releases_readers)
 	fails = append(fails, relink(c, c.Scale(60, 300))...)
 
 	for k, n := range knownSeen {
